@@ -10,6 +10,8 @@ import (
 	"bebopverif/internal/core"
 	"bebopverif/internal/load"
 	"bebopverif/internal/wire"
+
+	"golang.org/x/tools/go/cfg"
 )
 
 func init() { register("C18", checkC18) }
@@ -166,6 +168,31 @@ func checkC18(c *core.Ctx) {
 	fpos := p.Pos(fc.Pos())
 	c.Check("R3", "findCycle pushes the node before exploring its edges", fpos, pushAt >= 0 && rngAt > pushAt, "")
 	c.Check("R3", "findCycle pops the node on the non-cycle exit", fpos, popAt > rngAt && rngAt >= 0, "a node left on the stack makes every later path through it look like a cycle")
+	// path rule: from the push, every `return nil` is reached through the pop
+	if f := buildCFG(p, ig, fc); f != nil {
+		var start *cfg.Block
+		startIdx := 0
+		for _, b := range f.g.Blocks {
+			for i, n := range b.Nodes {
+				if strings.HasPrefix(strings.Join(strings.Fields(srcOf(p, n)), " "), "stack[from] =") {
+					start, startIdx = b, i+1
+				}
+			}
+		}
+		okPath := start != nil
+		var bad []string
+		if start != nil {
+			f.reach(start, startIdx, func(n ast.Node) bool {
+				return strings.HasPrefix(strings.Join(strings.Fields(srcOf(p, n)), " "), "delete(stack, from)")
+			}, func(r *ast.ReturnStmt, path []*cfg.Block) {
+				if r != nil && lastResultIsNil(r) {
+					okPath = false
+					bad = append(bad, p.Pos(r.Pos()))
+				}
+			})
+		}
+		c.Check("R3", "every non-cycle return of findCycle pops the node first", fpos, okPath, fmt.Sprintf("`return nil` at %v is reachable from the push without delete(stack, from): the node stays on the stack and the next path through it is reported as a cycle", bad))
+	}
 	if rng == nil {
 		c.Undecide("findCycle has no edge loop")
 		return
